@@ -86,6 +86,15 @@ class ScriptRunner:
         """execute one script line in the engine; returns the normalised output string"""
         t = line.split()
         _CUR[0] = self
+        es = getattr(self, 'embed_sets', None)
+        if es and len(t) > 1 and t[1] in self.paths and t[0] not in ('fs', 'join'):
+            # several RustEmbed types in one process: <T as RustEmbed> of a call is the type of the target's filesystem
+            try:
+                cur = es.get(id(self.w.fs_of(self.paths[t[1]])))
+            except Exception:
+                cur = None
+            if cur is not None:
+                self.ex.hooks['embed_files'] = cur
         try:
             r = self.exec(t)
         except Panic as p:
@@ -225,13 +234,17 @@ class ScriptRunner:
             elif kind in ('wmem', 'walt'):
                 from .wrapfs import new_wrapped
                 P[t[1]] = new_wrapped(self, kind, t[3], P[t[4]] if kind == 'walt' else None)
-            elif kind == 'embed':
-                ex.hooks.setdefault('embed_files', {})
+            elif kind in ('embed', 'embed2'):
+                # 'embed2' is a second RustEmbed type (own folder) in the same process
+                sets = self.__dict__.setdefault('embed_all', {})
+                mine = sets.setdefault(kind, ex.hooks.setdefault('embed_files', {}) if kind == 'embed' else {})
+                ex.hooks['embed_files'] = mine
                 o = w.guard(lambda: w.F('path::VfsPath::new', [w.F('EmbeddedFS::new', [])]))
                 self.last = o
                 if not o.ok:
                     return fmt_err(o)
                 P[t[1]] = o.value
+                self.__dict__.setdefault('embed_sets', {})[id(w.fs_of(o.value))] = mine
             elif kind == 'phys':
                 from .osm import new_phys
                 P[t[1]] = new_phys(self)
@@ -245,7 +258,12 @@ class ScriptRunner:
             self.last = Outcome('ok')
             return 'ok'
         if op == 'embedfile':
-            ex.hooks.setdefault('embed_files', {})[tuple(unhx(t[1]))] = self.arg_bytes(t[2])
+            sets = self.__dict__.setdefault('embed_all', {})
+            sets.setdefault('embed', ex.hooks.setdefault('embed_files', {}))[tuple(unhx(t[1]))] = self.arg_bytes(t[2])
+            self.last = Outcome('ok')
+            return 'ok'
+        if op == 'embedfile2':
+            self.__dict__.setdefault('embed_all', {}).setdefault('embed2', {})[tuple(unhx(t[1]))] = self.arg_bytes(t[2])
             self.last = Outcome('ok')
             return 'ok'
         if op in ('arm', 'disarm', 'log'):
@@ -486,6 +504,7 @@ def build_native(profile='dev', quiet=True):
         tdir = tdir + '-embed'
         env['CARGO_TARGET_DIR'] = tdir
         os.makedirs('/var/tmp/verif-embed', exist_ok=True)
+        os.makedirs('/var/tmp/verif-embed2', exist_ok=True)
     cmd = ['cargo', 'build', '--offline'] + (['--release'] if profile == 'release' else []) + (['--features', 'embed'] if profile == 'embed' else []) + (['--features', 'asyncvfs'] if profile == 'async' else [])
     r = subprocess.run(cmd, cwd=NATIVE_DIR, env=env, capture_output=True, text=True)
     if r.returncode != 0:
